@@ -75,9 +75,8 @@ func c01Alt(i int, x Term, k0, k1 Term) Term {
 	return vConj(vA("q").Apply(x), xEqual.Apply(x, k0))
 }
 
-// VH_C01_gen: inst = head arity (0..6).
-func VH_C01_gen(vm *VM, inst int) {
-	n := inst
+// c01GenClause draws one clause of the family; returns the program, the head, the alternatives and the query.
+func c01GenClause(n int) (clauses []Term, head Term, alts []Term, query Term, vars []Variable) {
 	k0, k1 := vK("k0", 2), vK("k1", 2)
 	x := NewVariable()
 	args := make([]Term, n)
@@ -100,22 +99,28 @@ func VH_C01_gen(vm *VM, inst int) {
 		}
 	}
 	nalt := 2 + choice("nalt", 2)
-	alts := make([]Term, nalt)
+	alts = make([]Term, nalt)
 	for i := range alts {
 		alts[i] = c01Alt(choice("alt", c01AltMenu), x, k0, k1)
 	}
-	head := vA("h").Apply(args...)
-	clauses := []Term{
+	head = vA("h").Apply(args...)
+	clauses = []Term{
 		vRule(head, vDisj(alts...)),
 		vA("q").Apply(k0),
 		vA("q").Apply(k1),
 	}
 	qargs := make([]Term, n)
-	vars := make([]Variable, n)
+	vars = make([]Variable, n)
 	for i := range qargs {
 		v := NewVariable()
 		qargs[i], vars[i] = v, v
 	}
-	note("case", "gen-disj arity "+string(rune('0'+n)))
-	vRunTerms(vm, "gen-disj", clauses, vA("h").Apply(qargs...), vars, 8, 400, "", false)
+	return clauses, head, alts, vA("h").Apply(qargs...), vars
+}
+
+// VH_C01_gen: inst = head arity (0..6).
+func VH_C01_gen(vm *VM, inst int) {
+	clauses, _, _, q, vars := c01GenClause(inst)
+	note("case", "gen-disj arity "+string(rune('0'+inst)))
+	vRunTerms(vm, "gen-disj", clauses, q, vars, 8, 400, "", false)
 }
